@@ -271,6 +271,8 @@ type Exec struct {
 	clockStrict     bool
 	inInit          map[*ssa.Package]bool
 	clock           *Term
+	preemptBound    int
+	preemptions     int
 	clockConcrete   bool
 	clockTicks      int64
 	jsonRecs        []jsonRec
